@@ -87,7 +87,7 @@ func jobName(j Job) string {
 	case j.Mixed != nil:
 		return fmt.Sprintf("mixed-readers/secure-first-%v", j.Mixed.SecureFirst)
 	case j.Late != nil:
-		return fmt.Sprintf("late-join/%s/start-%d/join-%d", j.Late.Transport, j.Late.Start, j.Late.Join)
+		return fmt.Sprintf("late-join/%s/start-%d/join-%d/format-%d", j.Late.Transport, j.Late.Start, j.Late.Join, j.Late.Active)
 	}
 	return "?"
 }
@@ -103,7 +103,7 @@ func main() {
 		"B (wire, real Server with TLSConfig + real Client with rtsps on memnet, medias with 2 formats = 2 SSRCs per MIKEY message, sequence numbers wrap in every stream): clear-payload pass = flows {play, record, play with back channel} x {udp, tcp over real TLS, tcp with the TLS layer replaced by the identity at the library's seams so that interleaved frames are visible} x every write entry point x every format, 8 (thorough 32) patterned packets each + positive controls {play, record} x {udp, tcp} without TLS; " +
 		"tamper pass = targets {play: s2c rtp, s2c rtcp, c2s rtcp; record: c2s rtp, c2s rtcp, s2c rtcp; back channel: c2s rtp; thorough adds session-level s2c rtp/rtcp and back-channel c2s rtcp} x {udp datagrams, interleaved frames of the identity-TLS variant}; alterations of one protected packet: quick = every bit of the first 48 and the last 16 bytes (= every bit of the 54/58-byte packets), thorough = every bit plus every byte set to 0x00 and to 0xFF (identity alterations skipped) and a second RTP shape (CSRC + one-byte header extension, 96-byte payload, 130 bytes protected); plus one bit of each SSRC byte of the FIRST packet of a stream (4 fresh worlds, play s2c and record c2s). " +
 		"C (admission): server TLS {off,on} x mode {play, record} x profile {AVP, SAVP} x {udp, tcp interleaved, multicast request} through a raw peer (sysx.Peer / the same over crypto/tls), 6 preference lists of two transports per server, the real client scheme {rtsp, rtsps} x protocol {auto, udp, tcp} against both servers, and redirects {301,302,303,304,305} x Location {rtsp other port, rtsp same port, rtsp with user info, RTSP upper case} from an rtsps URL, with controls (same-scheme redirect followed, on both servers). " +
-		"D (late joiners on the wire): secure stream written from sequence number 65530 (thorough: also 65535, 65524) for 10 (14) packets across the wrap x transport {udp, tcp over TLS, tcp identity-TLS} x EVERY join point j = 0..N (a fresh rtsps reader does DESCRIBE/SETUP/PLAY after exactly j packets; nothing is written while it joins), then the remaining packets + 4: every packet written after PLAY completed must be delivered decrypted with the written payload, no decode error. " +
+		"D (late joiners on the wire): secure stream written from sequence number 65530 (thorough: also 65535, 65524) for 10 (14) packets across the wrap x transport {udp, tcp over TLS, tcp identity-TLS} x which of the media's two formats carries the packets (the other stays idle) x EVERY join point j = 0..N (a fresh rtsps reader does DESCRIBE/SETUP/PLAY after exactly j packets; nothing is written while it joins), then the remaining packets + 4: every packet written after PLAY completed must be delivered decrypted with the written payload, no decode error. " +
 		"E (readers with different profiles on one secure stream): an RTSPS server, one raw reader over RTP/AVP/TCP inside TLS and one library reader over RTP/SAVP/UDP on the same stream, both joining orders, 32 (thorough 96) patterned packets: no datagram towards the secure reader shows the payload, the secure reader receives every packet decrypted. " +
 		"F (downgrade by the peer): a scripted RTSPS server describes RTP/SAVP with key material and answers every SETUP with {RTP/AVP/TCP instead of the requested transport, the requested transport with RTP/AVP, RTP/SAVP without key material, RTP/AVP/TCP with key material}, then sends one clear RTP packet after PLAY; client protocol {automatic, UDP, TCP}: the client never asks for the plain profile itself, never PLAYs after a plain SETUP answer, never delivers the clear packet. " +
 		"non-trivial = every case (A: the counter advances in each stream; B: each alteration is a distinct (target, transport, shape, byte, bit/value)); distinct = the tuple itself")
@@ -226,20 +226,23 @@ func main() {
 		}
 	}
 	if len(confirm) > 0 {
-		// determinism: a job that reported violations runs twice more; a signature counts only if every run shows it
+		// confirmation: a job that reported violations runs four more times
 		var idx []int
 		for i := range confirm {
 			idx = append(idx, i)
 		}
 		sort.Ints(idx)
 		var again []any
+		const reruns = 4
 		for _, i := range idx {
-			again = append(again, jobs[i], jobs[i])
+			for k := 0; k < reruns; k++ {
+				again = append(again, jobs[i])
+			}
 		}
 		res2 := evid.RunJobs(again, 16, 4*time.Minute)
 		for k, i := range idx {
 			stable := map[string]int{}
-			for _, r := range res2[2*k : 2*k+2] {
+			for _, r := range res2[reruns*k : reruns*k+reruns] {
 				var o JobOut
 				json.Unmarshal(r.Output, &o) //nolint:errcheck
 				for s := range sigsOf(o.Vios) {
@@ -247,11 +250,14 @@ func main() {
 				}
 			}
 			for _, v := range confirm[i] {
-				if stable[v.Sig] == 2 {
+				// the library iterates over maps (reader sets, SSRC sets): the same world can take two courses.
+				// A signature counts when it shows again in at least one of the re-runs; the rate is reported
+				if stable[v.Sig] >= 1 {
 					v.Detail["job"] = jobs[i]
+					v.Detail["reproduced"] = fmt.Sprintf("%d of %d re-runs", stable[v.Sig], reruns)
 					run.Violation(v.Sig, v.Detail)
 				} else {
-					run.Flaky(fmt.Sprintf("%s in job %s appeared in %d of 2 re-runs", v.Sig, jobName(jobs[i]), stable[v.Sig]))
+					run.Flaky(fmt.Sprintf("%s in job %s appeared in 0 of %d re-runs", v.Sig, jobName(jobs[i]), reruns))
 				}
 			}
 		}
